@@ -96,6 +96,7 @@ def RETURNS_ORACLE(stmts):
 
 @contract(_M + "find_return_stmts_recursive", props=["C07", "C01"])
 class find_returns:
+    deductive = False
     safety = False
 
     @clause(mode="bounded")
